@@ -1035,7 +1035,7 @@ struct Digit {
                     zeros = SizeT(number_length - fraction_length);
                 } else {
                     const SizeT rem    = (index - started_at);
-                    const SizeT needed = SizeT(number_length - calculated_digits);
+                    const SizeT needed = SizeT(fraction_length);
 
                     if (rem > needed) {
                         zeros = (rem - needed);
@@ -1116,7 +1116,7 @@ struct Digit {
                         zeros = SizeT(number_length - fraction_length);
                     } else {
                         const SizeT rem    = (index - started_at);
-                        const SizeT needed = SizeT(number_length - calculated_digits);
+                        const SizeT needed = SizeT(fraction_length);
 
                         if (rem > needed) {
                             zeros = (rem - needed);
